@@ -1,10 +1,16 @@
-"""Native replay of a counter-model: build the inputs the solver's model describes, call the REAL repository function under
-CPython (/venv/bin/python), and evaluate the contract clause that failed with plain Python semantics.
+"""Native replay of a counter-model, and bounded native search for a failing input.
 
-usage: /venv/bin/python nreplay/native.py <record.json> [repo_root]
-exit 1: the clause is violated natively for these inputs (a failing input of the real code);
-exit 0: the clause holds natively (the counter-model does not replay: no failing input found);
-exit 2: this clause / these inputs are outside what the replayer supports (no failing input found).
+replay:  build the inputs the solver's model describes, call the REAL repository function under CPython (/venv/bin/python),
+         evaluate the contract clause that failed with plain Python semantics.
+search:  when a violation has no replayable model (loop-invariant failures: the model describes a mid-loop state; undecided
+         obligations under the baseline rule), enumerate inputs from small boundary-value pools that satisfy the unit's
+         preconditions and evaluate ALL ensures clauses of the unit natively.  A hit is a real failing input of the real code;
+         no hit proves nothing (BOUNDED, budget stated in the output).
+
+usage: /venv/bin/python nreplay/native.py <record.json> [repo_root] [--search]
+exit 1: a clause is violated natively for the printed inputs (a failing input of the real code);
+exit 0: the clause holds natively for the model's inputs / the search found nothing;
+exit 2: this clause / these inputs are outside what the replayer supports.
 
 Supported: functions, methods, property getters / setters and constructors whose inputs are ints, bools, floats, None,
 lists of ints and a `self` with primitive fields; clauses over parameters, self, result, old(...), the spec functions of
@@ -12,11 +18,14 @@ lists of ints and a `self` with primitive fields; clauses over parameters, self,
 import ast
 import copy
 import importlib
+import itertools
 import json
 import os
+import random
 import sys
 
 VERIF = os.path.dirname(os.path.dirname(os.path.abspath(__file__)))
+SEARCH_BUDGET = 60000
 
 
 class Unsupported(Exception):
@@ -79,15 +88,13 @@ def load_spec_namespace():
                 continue
             src = open(os.path.join(VERIF, d, fn)).read()
             tree = ast.parse(src)
-            # keep plain (undecorated) functions and constants only
             keep = [n for n in tree.body if (isinstance(n, ast.FunctionDef) and not n.decorator_list) or isinstance(n, ast.Assign)]
-            mod = ast.Module(body=keep, type_ignores=[])
-            exec(compile(mod, os.path.join(d, fn), 'exec'), ns)
+            exec(compile(ast.Module(body=keep, type_ignores=[]), os.path.join(d, fn), 'exec'), ns)
     return ns
 
 
 class Prep(ast.NodeTransformer):
-    """old(e) -> value computed in the pre-state; private names are mangled like inside the class"""
+    """old(e) -> value computed in the pre-state; private names are mangled like inside the class; lemma(e) -> e"""
 
     def __init__(self, cls, olds):
         self.cls, self.olds = cls, olds
@@ -118,151 +125,273 @@ def find_unit(contract_file, unit_line):
     raise Unsupported('unit not found at %s:%s' % (contract_file, unit_line))
 
 
-def clause_calls(unit):
-    for st in unit.body:
-        if isinstance(st, ast.Expr) and isinstance(st.value, ast.Call) and isinstance(st.value.func, ast.Name):
-            yield st.value
+def declared_fields():
+    """class -> {field: type string} from contracts/shapes.py"""
+    out = {}
 
+    class _T:
+        def __init__(self, s):
+            self.s = s
 
-def collect_olds(nodes):
-    out = []
-    for n in nodes:
-        for c in ast.walk(n):
-            if isinstance(c, ast.Call) and isinstance(c.func, ast.Name) and c.func.id == 'old':
-                out.append(c.args[0])
+        def __call__(self, *a, **k):
+            return _T('%s(%s)' % (self.s, ','.join(getattr(x, 's', repr(x)) for x in a)))
+
+    class _NS(dict):
+        def __missing__(self, k):
+            return _T(k)
+
+    def cls(name, **fields):
+        out.setdefault(name, {}).update({k: getattr(v, 's', str(v)) for k, v in fields.items()})
+    ns = _NS()
+    ns.update({'cls': cls, 'rec': lambda *a, **k: None, 'ext': lambda *a, **k: None, 'key': lambda *a, **k: None})
+    try:
+        exec(compile(open(os.path.join(VERIF, 'contracts', 'shapes.py')).read(), 'shapes.py', 'exec'), ns)
+    except Exception:
+        pass
     return out
 
 
-def main():
-    rec = json.load(open(sys.argv[1]))
-    root = sys.argv[2] if len(sys.argv) > 2 else rec.get('repo_root', '/repo')
-    sys.path.insert(0, root)
-    modname, qual = rec['unit_key'].split(':')
-    mod = importlib.import_module(modname)
-    parts = qual.split('.')
-    kind = 'function'
-    if parts[-1] in ('getter', 'setter'):
-        kind = parts[-1]
-        parts = parts[:-1]
-    cls = getattr(mod, parts[0]) if len(parts) > 1 else None
-    clsname = parts[0] if cls is not None else None
-    fname = parts[-1]
-    inp = rec['inputs']
-    unit = find_unit(rec['contract_file'], rec['unit_line'])
-    ns = load_spec_namespace()
+INT_POOL = [0, 1, 2, 3, 4, 7, 8, 15, 16, 31, 32, 127, 128, 129, 239, 240, 254, 255, 256, 257, 0x7FFF, 0x8000, 0xFFFF, 0x10000, 0x3FFFF,
+            0x40000, 0xFFFFFF, 0x1FFFFFFF, 0x7FFFFFFF, 0x80000000, 0xFFFFFFFF, 2 ** 63, 2 ** 64 - 1, -1]
+LIST_POOL = [[], [0], [1], [0x7F], [0x80], [0xFF], [1, 2], [0, 0x80], [0xFF, 0xFF], [0x00, 0x80], [1, 2, 3], [0xFF, 0xFF, 0x01, 0x00],
+             [0, 0, 0, 0x80], [1, 2, 3, 4, 5, 6, 7, 8], [0xFF] * 8, [0, 0, 0, 0, 0, 0, 0, 0x80], [0x34, 0x12, 0x78, 0x56]]
 
-    # ---- build the inputs
-    params = {k: wrap(v) for k, v in (inp.get('params') or {}).items()}
-    kwargs = {k: wrap(v) for k, v in (inp.get('kwargs') or {}).items()}
-    selfobj = None
-    if cls is not None:
-        selfobj = cls.__new__(cls)
-        for k, v in ((inp.get('self') or {}).get('fields') or {}).items():
+
+def pool_for(tstr):
+    t = (tstr or 'int').replace(' ', '')
+    if t.startswith('opt('):
+        inner = pool_for(t[4:-1])
+        return None if inner is None else [None] + inner
+    if t in ('int', 'INT'):
+        return INT_POOL
+    if t in ('bool', 'BOOL'):
+        return [False, True]
+    if t in ('real', 'REAL'):
+        return [0.0, 0.5, 1.0]
+    if t in ('octets', 'OCTETS', 'list(int)', 'TList(INT)'):
+        return LIST_POOL
+    return None
+
+
+class Replayer:
+    def __init__(self, rec, root):
+        self.rec = rec
+        sys.path.insert(0, root)
+        modname, qual = rec['unit_key'].split(':')
+        self.mod = importlib.import_module(modname)
+        parts = qual.split('.')
+        self.kind = 'function'
+        if parts[-1] in ('getter', 'setter'):
+            self.kind = parts[-1]
+            parts = parts[:-1]
+        self.cls = getattr(self.mod, parts[0]) if len(parts) > 1 else None
+        self.clsname = parts[0] if self.cls is not None else None
+        self.fname = parts[-1]
+        self.unit = find_unit(rec['contract_file'], rec['unit_line'])
+        self.ns = load_spec_namespace()
+        self.calls = [st.value for st in self.unit.body
+                      if isinstance(st, ast.Expr) and isinstance(st.value, ast.Call) and isinstance(st.value.func, ast.Name)]
+        self.lets = [(ast.literal_eval(c.args[0]), c.args[1]) for c in self.calls if c.func.id == 'let']
+        self.requires = [a for c in self.calls if c.func.id == 'requires' for a in c.args]
+        self.allowed_exc = []
+        for c in self.calls:
+            if c.func.id == 'raises':
+                a = ast.literal_eval(c.args[0])
+                self.allowed_exc += a if isinstance(a, list) else [a]
+
+    def clauses(self, only_line=None):
+        out = []
+        for c in self.calls:
+            if c.func.id != 'ensures':
+                continue
+            if only_line is not None and not (c.lineno <= only_line <= c.end_lineno):
+                continue
+            out += [a for a in c.args if not (isinstance(a, ast.Constant) and isinstance(a.value, str))]
+        return out
+
+    def try_inputs(self, inp, target):
+        """-> (status, lines): 'violated' | 'holds' | 'pre-false' ; raises Unsupported"""
+        params = {k: wrap(copy.deepcopy(v)) for k, v in (inp.get('params') or {}).items()}
+        kwargs = {k: wrap(copy.deepcopy(v)) for k, v in (inp.get('kwargs') or {}).items()}
+        selfobj = None
+        if self.cls is not None:
+            selfobj = self.cls.__new__(self.cls)
+            for k, v in ((inp.get('self') or {}).get('fields') or {}).items():
+                try:
+                    object.__setattr__(selfobj, k, list(v) if isinstance(v, list) else v)
+                except Exception:
+                    pass
+        env = dict(self.ns)
+        env.update(params)
+        if kwargs or self.unit.args.kwarg is not None:
+            env[self.unit.args.kwarg.arg if self.unit.args.kwarg is not None else 'kwargs'] = kwargs
+        env['self'] = selfobj
+
+        def ev(node, olds, extra):
+            node = Prep(self.clsname, olds).visit(copy.deepcopy(node))
+            ast.fix_missing_locations(node)
+            e2 = dict(env)
+            e2.update(extra)
+            return eval(compile(ast.Expression(body=node), '<clause>', 'eval'), e2)
+        old_nodes = []
+        for n in target + [v for _, v in self.lets]:
+            for c in ast.walk(n):
+                if isinstance(c, ast.Call) and isinstance(c.func, ast.Name) and c.func.id == 'old':
+                    old_nodes.append(c.args[0])
+        olds, old_vals = {}, {}
+        for i, n in enumerate(old_nodes):
+            key = ast.unparse(n)
+            if key not in olds:
+                olds[key] = '__old%d' % i
+                try:
+                    old_vals[olds[key]] = copy.deepcopy(ev(n, {}, {}))
+                except Unsupported:
+                    raise
+                except Exception:
+                    return 'pre-false', ['old(%s) cannot be evaluated in the pre-state' % key]
+        for name, node in self.lets:
             try:
-                object.__setattr__(selfobj, k, list(v) if isinstance(v, list) else v)
+                env[name] = wrap(ev(node, olds, old_vals))
+            except Unsupported:
+                raise
             except Exception:
                 pass
-    env = dict(ns)
-    env.update(params)
-    if kwargs or unit.args.kwarg is not None:
-        env[unit.args.kwarg.arg if unit.args.kwarg is not None else 'kwargs'] = kwargs
-    env['self'] = selfobj
-
-    calls = list(clause_calls(unit))
-    lets = [(ast.literal_eval(c.args[0]), c.args[1]) for c in calls if c.func.id == 'let']
-    target = [c for c in calls if c.lineno <= rec['clause_line'] <= c.end_lineno and c.func.id in ('ensures', 'raises', 'requires')]
-    requires = [a for c in calls if c.func.id == 'requires' for a in c.args]
-
-    def ev(node, olds=None, extra=None):
-        node = Prep(clsname, olds or {}).visit(copy.deepcopy(node))
-        ast.fix_missing_locations(node)
-        e2 = dict(env)
-        if extra:
-            e2.update(extra)
-        return eval(compile(ast.Expression(body=node), '<clause>', 'eval'), e2)
-
-    # ---- pre-state: lets without result, old(...) captures, preconditions
-    old_nodes = collect_olds([a for c in target for a in c.args] + [v for _, v in lets] + [c.kw.value for c in target for c.kw in []])
-    olds, old_vals = {}, {}
-    for i, n in enumerate(old_nodes):
-        key = ast.unparse(n)
-        if key not in olds:
-            olds[key] = '__old%d' % i
-            old_vals[olds[key]] = copy.deepcopy(ev(n, {}, None))
-    for name, node in lets:
+        for r in self.requires:
+            try:
+                ok = ev(r, olds, old_vals)
+            except Unsupported:
+                raise
+            except Exception:
+                ok = False
+            if not ok:
+                return 'pre-false', ['precondition false natively: %s' % ast.unparse(r)[:160]]
+        exc, result = None, None
         try:
-            env[name] = wrap(ev(node, olds, old_vals))
-        except Unsupported:
-            raise
-        except Exception:
-            pass        # lets that mention result / post-state are evaluated again below
-    for r in requires:
-        try:
-            if not ev(r, olds, old_vals):
-                print('REPLAY: the inputs of the counter-model do not satisfy the precondition natively: %s' % ast.unparse(r)[:160])
-                return 0
-        except Unsupported as u:
-            raise
-    # ---- the call, on the real code
-    exc = None
-    result = None
-    call_kwargs = dict(kwargs)
-    try:
-        if kind == 'getter':
-            result = getattr(selfobj, fname)
-        elif kind == 'setter':
-            setattr(selfobj, fname, list(params.values())[0])
-        elif cls is not None:
-            fn = getattr(cls, fname)
-            names = [a.arg for a in unit.args.args][1:]
-            result = fn(selfobj, *[params[n] for n in names], **call_kwargs)
-        else:
-            fn = getattr(mod, fname)
-            result = fn(*[params[a.arg] for a in unit.args.args], **call_kwargs)
-    except Exception as e:      # the real code raised
-        exc = e
-    env['result'] = wrap(result)
-    for name, node in lets:
-        try:
-            env[name] = wrap(ev(node, olds, old_vals))
-        except Exception:
-            pass
-    shown = {'params': inp.get('params'), 'kwargs': inp.get('kwargs'), 'self': (inp.get('self') or {}).get('fields')}
-    if rec.get('obligation_kind') == 'noexc' or exc is not None:
+            if self.kind == 'getter':
+                result = getattr(selfobj, self.fname)
+            elif self.kind == 'setter':
+                setattr(selfobj, self.fname, list(params.values())[0])
+            elif self.cls is not None:
+                names = [a.arg for a in self.unit.args.args][1:]
+                result = getattr(self.cls, self.fname)(selfobj, *[params[n] for n in names], **kwargs)
+            else:
+                result = getattr(self.mod, self.fname)(*[params[a.arg] for a in self.unit.args.args], **kwargs)
+        except Exception as e:
+            exc = e
+        shown = json.dumps({'params': inp.get('params'), 'kwargs': inp.get('kwargs'), 'self': (inp.get('self') or {}).get('fields')}, default=str)
         if exc is not None:
-            allowed = [ast.literal_eval(c.args[0]) for c in calls if c.func.id == 'raises']
-            flat = [x for a in allowed for x in (a if isinstance(a, list) else [a])]
-            if type(exc).__name__ not in flat:
-                print('REPLAY: the real function raises %s: %s for inputs %s' % (type(exc).__name__, exc, json.dumps(shown, default=str)))
-                return 1
-            print('REPLAY: the real function raises %s (allowed by the contract)' % type(exc).__name__)
-            return 0
-        print('REPLAY: no exception natively')
-        return 0
-    failed = []
-    for c in target:
-        if c.func.id != 'ensures':
-            continue
-        for a in c.args:
-            if isinstance(a, ast.Constant) and isinstance(a.value, str):
+            if type(exc).__name__ not in self.allowed_exc:
+                return 'violated', ['the real function raises %s: %s for inputs %s' % (type(exc).__name__, exc, shown)]
+            return 'holds', ['the real function raises %s (allowed by the contract)' % type(exc).__name__]
+        env['result'] = wrap(result)
+        for name, node in self.lets:
+            try:
+                env[name] = wrap(ev(node, olds, old_vals))
+            except Exception:
+                pass
+        failed = []
+        for a in target:
+            try:
+                if not ev(a, olds, old_vals):
+                    failed.append(ast.unparse(a))
+            except Unsupported:
+                raise
+            except Exception as e:
+                failed.append('%s  (evaluation raised %r)' % (ast.unparse(a), e))
+        if failed:
+            lines = ['the real function violates the contract for inputs %s' % shown, 'result = %r' % (result,)]
+            if selfobj is not None:
+                lines.append('self after the call = %s' % json.dumps(dict(vars(selfobj)), default=str)[:600])
+            lines += ['false natively: %s' % f[:300] for f in failed[:4]]
+            return 'violated', lines
+        return 'holds', ['the clause holds natively for these inputs']
+
+    # ---- bounded search
+    def search(self):
+        fields = declared_fields().get(self.clsname or '', {})
+        slots = []      # (where, name, pool)
+        ann = {a.arg: (a.annotation.value if isinstance(a.annotation, ast.Constant) else None) for a in self.unit.args.args}
+        for a in self.unit.args.args:
+            if a.arg == 'self':
                 continue
-            if not ev(a, olds, old_vals):
-                failed.append(ast.unparse(a))
-    if failed:
-        print('REPLAY: the real function violates the clause for inputs %s' % json.dumps(shown, default=str))
-        print('REPLAY: result = %r' % (result,))
-        if selfobj is not None:
-            print('REPLAY: self after the call = %s' % json.dumps({k: v for k, v in vars(selfobj).items()}, default=str)[:600])
-        for f in failed:
-            print('REPLAY: false natively: %s' % f[:300])
-        return 1
-    print('REPLAY: the clause holds natively for the inputs of the counter-model')
-    return 0
+            p = pool_for(ann.get(a.arg))
+            if p is None:
+                raise Unsupported('parameter %s of type %s' % (a.arg, ann.get(a.arg)))
+            slots.append(('params', a.arg, p))
+        for c in self.calls:
+            if c.func.id == 'kwargs':
+                for k in c.keywords:
+                    p = pool_for(ast.literal_eval(k.value))
+                    if p is None:
+                        raise Unsupported('kwarg %s' % k.arg)
+                    slots.append(('kwargs', k.arg, p))
+        if self.cls is not None and self.fname != '__init__':
+            text = ast.unparse(self.unit)
+            for f, t in sorted(fields.items()):
+                short = f[len('_' + self.clsname):] if f.startswith('_' + self.clsname + '__') else f
+                if ('self.' + f) not in text and ('self.' + short) not in text:
+                    continue        # only the fields the contract talks about are varied
+                p = pool_for(t.replace('TOpt', 'opt').replace('TList(INT)', 'octets'))
+                if p is not None:
+                    slots.append(('self', f, p))
+        target = self.clauses()
+        if not target:
+            raise Unsupported('no ensures clause')
+        total = 1
+        for s in slots:
+            total *= len(s[2])
+        rnd = random.Random(1)
+
+        def gen():
+            if total <= SEARCH_BUDGET:
+                for combo in itertools.product(*[s[2] for s in slots]):
+                    yield combo
+            else:
+                for _ in range(SEARCH_BUDGET):
+                    yield tuple(rnd.choice(s[2]) for s in slots)
+        tried = ok_pre = 0
+        for combo in gen():
+            inp = {'params': {}, 'kwargs': {}, 'self': {'fields': {}}}
+            for (where, name, _), v in zip(slots, combo):
+                (inp['self']['fields'] if where == 'self' else inp[where])[name] = v
+            tried += 1
+            st, lines = self.try_inputs(inp, target)
+            if st == 'pre-false':
+                continue
+            ok_pre += 1
+            if st == 'violated':
+                return 1, ['bounded native search: failing input found after %d candidates (%d satisfied the preconditions)' % (tried, ok_pre)] + lines
+        return 0, ['bounded native search: no failing input among %d candidates from boundary-value pools (%d satisfied the preconditions)'
+                   % (tried, ok_pre)]
+
+
+def main():
+    args = [a for a in sys.argv[1:] if not a.startswith('--')]
+    rec = json.load(open(args[0]))
+    root = args[1] if len(args) > 1 else rec.get('repo_root', '/repo')
+    r = Replayer(rec, root)
+    if '--search' in sys.argv:
+        code, lines = r.search()
+    else:
+        target = r.clauses(rec.get('clause_line'))
+        st, lines = r.try_inputs(rec['inputs'], target)
+        code = 1 if st == 'violated' else 0
+        if st == 'pre-false':
+            lines = ['the inputs of the counter-model do not satisfy the precondition natively'] + lines
+    for ln in lines:
+        print('REPLAY: ' + ln)
+    return code
 
 
 if __name__ == '__main__':
     try:
-        sys.exit(main())
+        code = main()
     except Unsupported as u:
         print('REPLAY: unsupported by the native replayer: %s' % u)
-        sys.exit(2)
+        code = 2
+    except BaseException as e:     # a crash of the replayer is never a failing input
+        import traceback
+        traceback.print_exc()
+        print('REPLAY: replayer error: %r' % (e,))
+        code = 3
+    sys.exit(code)
